@@ -177,6 +177,11 @@ class SysSim(Engine):
                                                   ("nan", 2), ("neg_big", 2), ("neg_small", 1), ("inf_pair", 1)]),
                             "arr": rng.randint(0, 50), "role": rng.choice(["flow", "flow", "inflow", "outflow"]), "entry": rng.randint(0, 10 ** 6),
                             "sign": rng.choice([1, -1])})
+                if rng.chance(0.1):
+                    # right at the edge of an explicit tolerance: a few parts per million above or below it
+                    T = rng.choice([0.5, 10.0])
+                    ops[-1].update({"kind": rng.choice(["delta_edge_above", "delta_edge_below"]), "T": T})
+                    ops.append({"op": "check", "what": "mass_balance", "raise": rng.chance(0.5), "tol": T})
                 ops.append(self._gen_check(rng, world))
                 if rng.chance(0.6):
                     ops.append({"op": "heal"})
@@ -605,6 +610,8 @@ class SysSim(Engine):
                 new = old + op["sign"] * scale / 4                  # <= tol / 2
             elif fk == "delta_just_above":
                 new = old + op["sign"] * (3 * tol if tol > 0 else 25.0)   # just above the default tolerance
+            elif fk in ("delta_edge_above", "delta_edge_below"):
+                new = old + op["sign"] * op["T"] * (1 + (4e-6 if fk.endswith("above") else -4e-6))
             elif fk in ("delta_0p2", "delta_1p5", "delta_4"):
                 new = old + op["sign"] * {"delta_0p2": 0.2, "delta_1p5": 1.5, "delta_4": 4.0}[fk]   # around the explicit tolerances 0.5 / 10
             elif fk == "neg_big":
@@ -687,6 +694,18 @@ class SysSim(Engine):
         else:
             worst = max(imb.values(), default=0.0)
             gray = [v for v in imb.values() if tol / 2 < v < 2 * tol]
+            if op["tol"] is not None and tol > 0:
+                # an explicit tolerance and (next to at most two fractional entries) whole numbers everywhere: every partial sum flodym can
+                # form is then exact up to a few ulp of the largest magnitude, and the verdict is also demanded close to the tolerance
+                arrs_ = [a.values for _, a in self._arrays(st)]
+                fin_ = [a[np.isfinite(a)] for a in arrs_]
+                nonint = sum(int(np.count_nonzero(a != np.round(a))) for a in fin_)
+                maxabs = max([float(np.max(np.abs(a))) for a in fin_ if a.size] or [0.0])
+                if nonint <= 2 and maxabs < 2 ** 40:
+                    slack = max(80 * EPS * max(maxabs, tol) * (nonint + 1), 1e-9 * tol)
+                    gray = [v for v in imb.values() if abs(v - tol) <= slack]
+                    if any(tol / 2 < v < 2 * tol for v in imb.values()) and not gray:
+                        self._probe(st, "verdict_demanded_close_to_an_explicit_tolerance")
             if tol == 0.0:
                 # an explicit zero tolerance: imbalances that are mere float noise (far below the smallest booked mass) are not judged,
                 # and as soon as any array holds a non-integer value flodym's own partial sums may round: no verdict then
